@@ -17,6 +17,7 @@
 package types
 
 import (
+	"encoding/json"
 	"fmt"
 	"sort"
 )
@@ -38,20 +39,23 @@ func (s SSHConfig) Get(id string) (string, error) {
 	return "", fmt.Errorf("ID %s not found in SSH keys", id)
 }
 
+// shortSyntax is the short syntax of an SSH key as the loader reads it back: `id=path`, the bare word `default`
+// for the default agent, and `id=` for any other agent key without a path (only `default` may be a bare word)
+func (s SSHKey) shortSyntax() string {
+	if s.Path == "" && s.ID == "default" {
+		return s.ID
+	}
+	return fmt.Sprintf("%s=%s", s.ID, s.Path)
+}
+
 // MarshalYAML makes SSHKey implement yaml.Marshaller
 func (s SSHKey) MarshalYAML() (interface{}, error) {
-	if s.Path == "" {
-		return s.ID, nil
-	}
-	return fmt.Sprintf("%s: %s", s.ID, s.Path), nil
+	return s.shortSyntax(), nil
 }
 
 // MarshalJSON makes SSHKey implement json.Marshaller
 func (s SSHKey) MarshalJSON() ([]byte, error) {
-	if s.Path == "" {
-		return []byte(fmt.Sprintf(`%q`, s.ID)), nil
-	}
-	return []byte(fmt.Sprintf(`%q: %s`, s.ID, s.Path)), nil
+	return json.Marshal(s.shortSyntax())
 }
 
 func (s *SSHConfig) DecodeMapstructure(value interface{}) error {
